@@ -2,11 +2,31 @@
    of validating a payload against them (Py/ParseLog.v plog), the payload-driven occurrences (pocc), the uniqueness
    guard and acceptance. *)
 From Coq Require Import List String Ascii Bool ZArith.
-From AC Require Import Base.Sexp Base.Json Gql.Schema Py.Ann Py.Pydantic Py.ParseLog Model.Results Model.Scalars.
+From AC Require Import Base.Sexp Base.Json Gql.Schema Gql.Exec Py.Ann Py.Pydantic Py.ParseLog Model.Results Model.Scalars.
+From AC Require Proofs.ResultsRunP Proofs.ResultsObjP.
 Import ListNotations.
 Local Open Scope string_scope.
 
 Definition sEntries (l : list pentry) : sexp := L (map (fun e => L [A (fst e); json_to_sexp (snd e)]) l).
+
+(* the hypotheses of C07_parse_once_op, evaluated one by one: where all hold the theorem applies.  First those about
+   the operation (sub-language with distinct Python names; no class called BaseModel), then those about the payload
+   (conformant to the selection, no duplicate keys) *)
+Definition op_in_theorem (fuel : nat) (c : cfg) (s : schema) (fs : list fragdef) (d : defn)
+  : string * option (string * list sel) :=
+  match d with
+  | DOp kind name [] sels =>
+      match root_type_name s kind, op_parse fuel c s fs kind name [] sels with
+      | Ok root, Ok (own, _, false) =>
+          if negb (ResultsObjP.op_ok fuel true c s fs root sels) then ("op_ok", None)
+          else if negb (ResultsRunP.no_basemodel own) then ("basemodel", None)
+          else ("t", Some (root, sels))
+      | Ok _, Ok (_, _, true) => ("ghost", None)
+      | _, _ => ("parse", None)
+      end
+  | DOp _ _ _ _ => ("mixins", None)
+  | _ => ("fragment", None)
+  end.
 
 Definition run_parselog (e : sexp) : sexp :=
   match e with
@@ -17,9 +37,16 @@ Definition run_parselog (e : sexp) : sexp :=
           | Ok (root :: rest) =>
               let cs := root :: rest in
               let a := AClass (c_name root) in
-              L [A "ok"; L (map (fun j => L [sEntries (plog fuel cs a j); sEntries (pocc fuel cs a j);
-                                             sB (uniq fuel cs a j);
-                                             sB (accepts fuel cs (schema_enums s) a j)]) js)]
+              let n := fuel + 2 in
+              let thm := op_in_theorem fuel c s fs d in
+              L [A "ok"; L (map (fun j => L [sEntries (plog n cs a j); sEntries (pocc n cs a j);
+                                             sB (uniq n cs a j);
+                                             sB (accepts n cs (schema_enums s) a j);
+                                             A (match thm with
+                                                | (_, Some (rt, sels)) =>
+                                                    if negb (conf_op fuel s fs rt sels j) then "conf"
+                                                    else if negb (ResultsObjP.jwf j) then "jwf" else "t"
+                                                | (why, None) => why end)]) js)]
           | Ok [] => L [A "err"; A "no classes"]
           | Err m => L [A "err"; A m]
           end
